@@ -6,7 +6,7 @@ from fractions import Fraction
 
 from ..keval import KEval, Ref, Cond, Const, Top, SLICE
 from ..poly import Poly, ZERO, ONE
-from ..forms import value_poly, real_guards, short, is_full_range, norm_cond, CMP
+from ..forms import drop_implied_any, value_poly, real_guards, short, is_full_range, norm_cond, CMP
 from .. import wire
 from ..model import norm_text, AnchorMissing
 from ..controls import Control
@@ -68,7 +68,7 @@ def kernel_rule(ctx, p, K):
     okc = bo == {(ZERO,): Poly.fn("mean", E_("border_grid", S_(":"), ZERO)), (ONE,): Poly.fn("mean", E_("border_grid", S_(":"), ONE))}
     ctx.ob(rule, f.key + ":centroid", okc, where=f, node=f.node, construct=str({repr(i): repr(v) for i, v in bo.items()}), message="the relocation centre must be the centroid (mean y, mean x) of the border points")
     # guards
-    gs = real_guards(mv.guards)
+    gs = drop_implied_any(real_guards(mv.guards), [l.var for l in mv.loops])   # (an early return taken when no point lies beyond the smallest border radius is the same decision, made once)
     got = sorted(str(norm_cond(c)) for c in gs)
     want = sorted([str(norm_cond(CMP(r_k, ">", Poly.fn("min", Rb_all)))), str(norm_cond(CMP(mf, "<", ONE)))])
     ctx.ob(rule, f.key + ":guards", got == want, where=f, node=mv.node, construct="; ".join(got)[:500],
